@@ -309,6 +309,11 @@ class C06Life(Monitor):
     def on_deme_enter(self, deme):
         self.enters[deme.id] += 1
         self.was_active[deme.id] = deme.is_active
+        lv = self.ctx.desc["levels"][deme.level] if deme.level < len(self.ctx.desc.get("levels", [])) else {}
+        if lv.get("mutation_std_step") and self._hib():
+            slept = self.ctx.step - 1 - deme.started_at - deme.metaepoch_count  # metaepochs of the tree in which this deme did not run
+            if slept * lv["mutation_std_step"] > (lv["mutation_std"] if isinstance(lv.get("mutation_std"), float) else 1e300):
+                self.cov("adaptive_mutation_deme_ran_after_sleeping_longer_than_std_over_step")
         if deme.id in self.inactive:
             self.v(f"a stopped deme ran a metaepoch again: {type(deme).__name__}", deme=deme.id)
         if deme.id not in self.mc_before:
@@ -456,6 +461,23 @@ class C06Life(Monitor):
     def on_run_end(self, tree):
         self.on_gsc(tree, False, "end", None)
 
+    def on_run_raised(self, tree, exc):
+        # a metaepoch that dies with an exception raised by the library itself leaves the demes that were due to advance where they are
+        # (the generator only produces configurations within the documented preconditions of every component)
+        if tree is None or self.ctx.step < 1 or not self.ctx.in_step:
+            self.cov("exceptions_outside_a_metaepoch")
+            return
+        due = [d for d in self.must_run if self.enters.get(d, 0) == 0]
+        tb = self.ctx.aborted[3] if self.ctx.aborted and len(self.ctx.aborted) > 3 else ""
+        where = "pyhms" if "/pyhms/" in tb.split("\n")[-3:][0] + tb[-600:] else "elsewhere"
+        self.v(
+            f"a metaepoch ended with an exception instead of advancing the active demes: {type(exc).__name__}: {str(exc)[:60]}",
+            step=self.ctx.step,
+            demes_that_had_not_run_yet=due[:5],
+            raised_in=where,
+            traceback_tail=tb[-700:],
+        )
+
 
 class C07Structure(Monitor):
     prop = "C07"
@@ -499,8 +521,12 @@ class C07Structure(Monitor):
             for d in lvl:
                 if d.level != li:
                     self.v("deme.level != index of the level holding it", deme=d.id, level=d.level, held_in=li)
-                if eng is not None and type(d).__name__ != ENGINE_CLASS[eng]:
-                    self.v("deme is not of the engine configured for its level", deme=d.id, have=type(d).__name__, configured=ENGINE_CLASS[eng])
+                want_cls = ENGINE_CLASS[eng] if eng is not None else None
+                if desc.get("override_builtin_ea") and want_cls == "EADeme":
+                    want_cls = "OverridingEADeme"  # the user registered a deme class of their own for the built-in EALevelConfig
+                    self.cov("deme_of_a_level_whose_built_in_config_class_is_mapped_to_a_user_deme_class")
+                if eng is not None and type(d).__name__ != want_cls:
+                    self.v("deme is not of the engine configured for its level" + (" (user deme class registered for a built-in config class)" if desc.get("override_builtin_ea") else ""), deme=d.id, have=type(d).__name__, configured=want_cls)
                 if eng in ("custom", "custom_ea", "custom_ea2"):
                     self.cov("custom_deme_class_seen")
                     self.cov(f"custom_deme_class_seen.{eng}")
